@@ -189,6 +189,87 @@ theorem g_no_object_name_lost (a b : Tbl) (raw : Bool) (st : St) (h : mergeSpocS
       · exact has_append_of_has t _ p n ht
   exact this b a hp
 
+/-! ## Persistence: what the final table holds
+
+Every change of the table goes through `St.store`, which also appends the event to the ghost log `writes`. -/
+
+/-- **The final table holds, for every key written during the merge, the list written last.**  No step
+changes a stored list except by storing a list under the same prefix and name again. -/
+theorem g_final_table_holds_last_write (a b : Tbl) (raw : Bool) (st : St) (h : mergeSpocSt a b raw = .ok st) :
+    ∀ p n l, lastWrite st.writes p n = some l → st.a.get p n = l := by
+  unfold mergeSpocSt at h
+  exact (foldTop_ext b raw _ _ _ h).tbl (fun p n l hl => by simp [lastWrite] at hl)
+
+/-- **A list that is stored once is final**: if the log of a successful merge has exactly one event for
+prefix `p` and name `n`, the list stored by that event is what the final table holds — so the per-kind laws
+below (`g_asa_acl_law`, `g_ios_acl_law`, `g_generic_commands`, `g_dynmap_commands`, which speak about the
+list at the moment it is stored, see `g_store_event_*`) speak about the final result. -/
+theorem g_written_once_is_final (a b : Tbl) (raw : Bool) (st : St) (h : mergeSpocSt a b raw = .ok st)
+    (p n : String) (l : List Cmd) (hx : ((p, n), l) ∈ st.writes)
+    (honce : (st.writes.filter (fun y => y.1.1 == p && y.1.2 == n)).length = 1) : st.a.get p n = l := by
+  apply g_final_table_holds_last_write a b raw st h
+  unfold lastWrite
+  have hm : ((p, n), l) ∈ st.writes.filter (fun y => y.1.1 == p && y.1.2 == n) :=
+    List.mem_filter.mpr ⟨hx, by simp⟩
+  cases hf : st.writes.filter (fun y => y.1.1 == p && y.1.2 == n) with
+  | nil => rw [hf] at hm; cases hm
+  | cons y ys =>
+    rw [hf] at honce hm
+    have : ys = [] := by
+      cases ys with
+      | nil => rfl
+      | cons z zs => simp at honce
+    subst this
+    have : ((p, n), l) = y := by simpa using hm
+    subst this
+    rfl
+
+/-- If a key is stored several times, each later list is what the same merge functions make of the list
+found in the table — a list is never overwritten by something unrelated.  The events are kept in order: -/
+theorem g_store_events_kept (b : Tbl) (raw : Bool) (fuel : Nat) (st st' : St) (al bl : List Cmd) (n p : String)
+    (h : mergeCmds b raw fuel st al bl n p = .ok st') : ∀ x ∈ st.writes, x ∈ st'.writes :=
+  (mergeCmds_ext b raw fuel st al bl n p st' h).wsub
+
+/-- The store events of the per-kind theorems: the last event of the step is the list the law speaks about. -/
+theorem g_store_event_asa_acl (rec : Rec) (b : Tbl) (raw : Bool) (st st' : St) (al bl : List Cmd) (name pfx : String)
+    (h : mergeAsaAcl rec b raw st al bl name pfx = .ok st') :
+    st'.writes.getLast? = some ((pfx, name), st'.a.get pfx name) := by
+  unfold mergeAsaAcl at h
+  split at h
+  · cases h
+  · cases h; simp [St.store, Tbl.get_set]
+
+theorem g_store_event_ios_acl (st st' : St) (al bl : List Cmd) (name pfx : String)
+    (h : mergeIosAcl st al bl name pfx = .ok st') :
+    st'.writes.getLast? = some ((pfx, name), st'.a.get pfx name) := by
+  unfold mergeIosAcl at h
+  split at h
+  · cases h
+  · cases h; simp [St.store, Tbl.get_set]
+
+theorem g_store_event_generic (rec : Rec) (b : Tbl) (raw : Bool) (st st' : St) (al bl : List Cmd) (name pfx : String)
+    (h : mergeGeneric rec b raw st al bl name pfx = .ok st') :
+    st'.writes.getLast? = some ((pfx, name), st'.a.get pfx name) := by
+  unfold mergeGeneric at h
+  split at h
+  · cases h; simp [St.store, Tbl.get_set]
+  · cases h
+
+theorem g_store_event_crypto (rec : Rec) (b : Tbl) (raw : Bool) (st st' : St) (al bl : List Cmd) (name pfx : String)
+    (h : mergeDynMap rec b raw st al bl name pfx = .ok st' ∨ mergeCryptoMap rec b raw st al bl name pfx = .ok st') :
+    st'.writes.getLast? = some ((pfx, name), st'.a.get pfx name) := by
+  rcases h with h | h
+  · unfold mergeDynMap at h
+    split at h
+    · cases h; simp [St.store, Tbl.get_set]
+    · cases h
+  · unfold mergeCryptoMap at h
+    split at h
+    · cases h
+    · split at h
+      · cases h; simp [St.store, Tbl.get_set]
+      · cases h
+
 /-! ## Completeness and order, per kind of command -/
 
 theorem assocGet_assocSet_same {β : Type} (t : List (String × β)) (k : String) (v : β) :
@@ -210,6 +291,9 @@ theorem Tbl.get_set_same (t : Tbl) (p n : String) (l : List Cmd) : (t.set p n l)
   rw [assocGet_assocSet_same]
   simp [assocGet_assocSet_same]
 
+theorem store_get (st : St) (p n : String) (l : List Cmd) : (st.store p n l).a.get p n = l := by
+  simp [St.store, Tbl.get_set_same]
+
 section
 variable (rec : Rec) (b : Tbl) (raw : Bool)
 
@@ -225,7 +309,7 @@ theorem g_generic_commands (st st' : St) (al bl : List Cmd) (name pfx : String)
   split at h
   · rename_i st1 al' hf
     cases h
-    rw [Tbl.get_set_same]
+    rw [store_get]
     exact generic_keys rec b raw _ bl _ _ hf
   · cases h
 
@@ -272,7 +356,7 @@ theorem g_dynmap_commands (st st' : St) (al bl : List Cmd) (name pfx : String)
   · rename_i st1 al' add hc
     cases h
     obtain ⟨h1, h2, _⟩ := g_crypto_common rec b raw st al bl _ hc
-    exact ⟨al', add, Tbl.get_set_same _ _ _ _, h1, h2⟩
+    exact ⟨al', add, store_get _ _ _ _, h1, h2⟩
   · cases h
 
 theorem aclRef_fold : ∀ (bl : List Cmd) (acc acc' : St × List Cmd),
@@ -316,7 +400,7 @@ theorem g_asa_acl_law (st st' : St) (al bl : List Cmd) (name pfx : String)
     obtain ⟨h1, h2⟩ := aclRef_fold rec b raw bl _ _ hf
     obtain ⟨topL, netL, hp, hcase⟩ := mergeVia_asa_placed (fun c : Cmd => asaKind c.parsed) (·.app) al bl'
     refine ⟨bl', topL, netL, by simpa using h1, by simpa using h2, ?_, hcase⟩
-    rw [Tbl.get_set_same]
+    rw [store_get]
     exact hp
 
 end
@@ -333,7 +417,7 @@ theorem g_ios_acl_law (st st' : St) (al bl : List Cmd) (name pfx : String)
   · cases h
   · rename_i b0 rest
     cases h
-    refine ⟨_, Tbl.get_set_same _ _ _ _, ?_⟩
+    refine ⟨_, store_get _ _ _ _, ?_⟩
     exact mergeVia_ios_placed (fun s : Sub => iosKind s.parsed) (·.app) _ _
 
 /-- Consequences of the placement law, for any element type: permutation and order of the parts. -/
@@ -395,6 +479,20 @@ example : ((mergeSpocSt exA exB true).toOption.map (·.log)) = some [("access-li
 example : ("access-list", "U") ∈ exB.keys ∧ exB.get "access-list" "U" = [{ typPrefix := "access-list", parsed := "access-list $NAME extended deny ip any4 any4", name := "U" }] := by
   decide
 
+-- persistence: a raw ACL merged into Netspoc's ACL is stored once; the final table holds exactly that list
+example : (mergeSpocSt exA exB true).toOption.map (fun st => (st.writes.filter (fun y => y.1.1 == "access-list" && y.1.2 == "A1")).length)
+    = some 1 := by decide
+-- … while two raw ACLs bound at two places that Netspoc binds to ONE ACL store that ACL twice (the second list
+-- is the merge of the first with the second raw ACL): "stored once" is a hypothesis, not a law
+def exA2 : Tbl := [("access-list", [("A1", [{ parsed := "access-list $NAME extended permit ip any4 any4", name := "A1" }])]),
+  ("access-group", [("", [{ parsed := "access-group $REF in interface if0", ref := ["A1"], refPrefix := ["access-list"], anchor := true },
+                          { parsed := "access-group $REF out interface if1", ref := ["A1"], refPrefix := ["access-list"], anchor := true }])])]
+def exB2 : Tbl := [("access-list", [("X", [{ parsed := "access-list $NAME extended deny ip host 1.1.1.1 any4", name := "X" }]),
+                                     ("Y", [{ parsed := "access-list $NAME extended deny ip host 2.2.2.2 any4", name := "Y" }])]),
+  ("access-group", [("", [{ parsed := "access-group $REF in interface if0", ref := ["X"], refPrefix := ["access-list"], anchor := true },
+                          { parsed := "access-group $REF out interface if1", ref := ["Y"], refPrefix := ["access-list"], anchor := true }])])]
+example : (mergeSpocSt exA2 exB2 true).toOption.map (fun st =>
+    ((st.writes.filter (fun y => y.1.1 == "access-list" && y.1.2 == "A1")).length, (st.a.get "access-list" "A1").length)) = some (2, 3) := by decide
 -- routes: a duplicate route of the raw file is merged, a new one is added behind Netspoc's routes
 def exR1 : Cmd := { parsed := "route inside 10.20.0.0 255.255.0.0 10.1.2.3", anchor := true }
 def exR2 : Cmd := { parsed := "route inside 10.22.0.0 255.255.0.0 10.1.2.4", anchor := true }
@@ -422,7 +520,8 @@ example : ("webvpn", "") ∈ Tbl.keys [("webvpn", [("", [{ parsed := "webvpn", a
 def obligations : List Lean.Name := [
   ``g_no_object_merged_twice, ``g_second_reference_is_error, ``g_name_clash_is_error,
   ``g_simple_name_clash_is_error, ``g_unsupported_prefix_reported, ``g_unused_object_warned,
-  ``mergeCmds_ext, ``g_no_object_name_lost, ``g_generic_commands, ``g_generic_nothing_dropped, ``g_subcommands, ``g_crypto_common,
+  ``mergeCmds_ext, ``g_final_table_holds_last_write, ``g_written_once_is_final, ``g_store_events_kept,
+  ``g_store_event_asa_acl, ``g_store_event_ios_acl, ``g_store_event_generic, ``g_store_event_crypto, ``g_no_object_name_lost, ``g_generic_commands, ``g_generic_nothing_dropped, ``g_subcommands, ``g_crypto_common,
   ``g_dynmap_commands, ``g_crypto_entry_subcommands, ``g_old_crypto_subcommand_dropped_counterexample, ``g_asa_acl_law, ``g_ios_acl_law, ``g_placed_consequences]
 
 end NA.C18.G
